@@ -159,7 +159,7 @@ theorem handleTx_frame (s : St) (e : Bool) (ht : Int) (tx : TxIn) : TxFrame tx s
     · exact TxFrame.of_frAll h0
     · exact TxFrame.of_frAll h0
     · rename_i s1 hv
-      obtain ⟨l, rfl⟩ := validateTrx_eq hv
+      obtain ⟨l, rfl⟩ := validateTrx_limiter hv
       have h1 := h0.trans (limiter_frAll _ l)
       split
       · exact TxFrame.of_frAll h1
